@@ -35,6 +35,12 @@ pub struct SlowCase {
     pub slow: Vec<Vec<(usize, WinEv)>>,
     /// publish sizes (index into SIZES) — second frame length; first frame is the tag
     pub publishes: Vec<u8>,
+    /// false: everybody subscribes to "" (every publish matches). true: everybody subscribes
+    /// to "tt" and only half of the publishes match (first frames "tt<n>"); the others have a
+    /// first frame that is a proper prefix of the subscription ("t"), empty, or unrelated -
+    /// what reaches a subscriber must be a subsequence of the MATCHING publishes
+    #[serde(default)]
+    pub filtered: bool,
 }
 
 fn message(seq: usize, size: usize) -> Frames {
@@ -47,9 +53,30 @@ fn message(seq: usize, size: usize) -> Frames {
     }
 }
 
+/// the publish numbered `seq` when subscribers filter on "tt" (see SlowCase::filtered)
+fn message_f(seq: usize, size: usize, filtered: bool, force_match: bool) -> Frames {
+    let mut m = message(seq, size);
+    if filtered {
+        m[0] = match seq % 8 {
+            _ if force_match => format!("tt{:06}", seq).into_bytes(),
+            1 => b"t".to_vec(),
+            3 => vec![],
+            5 => format!("u{:06}", seq).into_bytes(),
+            7 => format!("t{:06}", seq).into_bytes(),
+            _ => format!("tt{:06}", seq).into_bytes(),
+        };
+    }
+    m
+}
+
+fn matches_filter(m: &Frames, filtered: bool) -> bool {
+    !filtered || m.first().map(|f| f.starts_with(b"tt")).unwrap_or(false)
+}
+
 fn seq_of(m: &Frames) -> Option<usize> {
     let t = std::str::from_utf8(m.first()?).ok()?;
-    t.strip_prefix('t')?.parse().ok()
+    let t = t.strip_prefix('t')?;
+    t.strip_prefix('t').unwrap_or(t).parse().ok()
 }
 
 pub fn slow_outcome(c: &SlowCase) -> Outcome {
@@ -69,8 +96,8 @@ pub fn slow_outcome(c: &SlowCase) -> Outcome {
             for _ in 0..total_subs {
                 match simx::attach_raw(&mut sim, s, None).await {
                     Ok((l, _)) => {
-                        // subscribe to everything
-                        l.raw_send_now(&[vec![1u8]]);
+                        // subscribe to everything / to "tt"
+                        l.raw_send_now(&[if c.filtered { vec![1u8, b't', b't'] } else { vec![1u8] }]);
                         links.push(l);
                     }
                     Err(e) => {
@@ -146,7 +173,7 @@ pub fn slow_outcome(c: &SlowCase) -> Outcome {
                     heap_base = None;
                 }
                 let size = SIZES[*szi as usize % SIZES.len()];
-                let m = message(k, size);
+                let m = message_f(k, size, c.filtered, false);
                 max_enc = max_enc.max(refcodec::encode_message(&m).len());
                 // (1) non-blocking: the send completes without any window action
                 let a = sim.send(s, &m);
@@ -201,31 +228,39 @@ pub fn slow_outcome(c: &SlowCase) -> Outcome {
                     }
                 }
             }
-            let fin = message(c.publishes.len(), 3);
+            let fin = message_f(c.publishes.len(), 3, c.filtered, true);
             let a = sim.send(s, &fin);
             if !matches!(sim.run(a).await, Ok(Some(Out::Send(Ok(()))))) {
                 fail!(f, format!("C12/{}/publish-fails", who), "final publish failed");
             }
             pub_sizes.push(3);
             // second flush (a partial write may leave bytes buffered until the next publish)
-            let fin2 = message(c.publishes.len() + 1, 3);
+            let fin2 = message_f(c.publishes.len() + 1, 3, c.filtered, true);
             let a = sim.send(s, &fin2);
             let _ = sim.run(a).await;
             pub_sizes.push(3);
-            let published: Vec<Frames> = pub_sizes.iter().enumerate().map(|(q, sz)| message(q, *sz)).collect();
+            let n_app = c.publishes.len();
+            let published: Vec<Frames> = pub_sizes.iter().enumerate().map(|(q, sz)| message_f(q, *sz, c.filtered, q >= n_app)).collect();
+            // what a subscriber that accepts every write must have received
+            let matching: Vec<Frames> = published.iter().filter(|m| matches_filter(m, c.filtered)).cloned().collect();
+            if c.filtered {
+                classes.push("subscribers-filter-on-a-topic".into());
+            }
 
             // (2) healthy subscriber misses nothing
             if let Some(h) = healthy {
                 match links[h].lib_messages() {
                     Ok(m) => {
-                        if m != published {
+                        if let Some(x) = m.iter().find(|x| !matches_filter(x, c.filtered)) {
+                            fail!(f, format!("C12/{}/delivered-without-matching-subscription", who), "the healthy subscriber (subscribed to \"tt\") received a message whose first frame is {:?}", String::from_utf8_lossy(&x[0]));
+                        } else if m != matching {
                             let got: Vec<Option<usize>> = m.iter().map(seq_of).collect();
                             fail!(
                                 f,
                                 format!("C12/{}/healthy-subscriber-affected", who),
                                 "the subscriber that accepts every write received {} of {} messages (first numbers {:?})",
                                 m.len(),
-                                published.len(),
+                                matching.len(),
                                 &got[..got.len().min(12)]
                             );
                         }
@@ -241,6 +276,11 @@ pub fn slow_outcome(c: &SlowCase) -> Outcome {
                         let mut last: Option<usize> = None;
                         let mut ok = true;
                         for m in &msgs {
+                            if !matches_filter(m, c.filtered) {
+                                fail!(f, format!("C12/{}/delivered-without-matching-subscription", who), "subscriber {} (subscribed to \"tt\") received a message whose first frame is {:?}", j, String::from_utf8_lossy(&m[0]));
+                                ok = false;
+                                break;
+                            }
                             match seq_of(m) {
                                 Some(q) if q < published.len() && &published[q] == m && last.map(|l| q > l).unwrap_or(true) => last = Some(q),
                                 other => {
@@ -298,8 +338,8 @@ pub fn slow_outcome(c: &SlowCase) -> Outcome {
                         // (5) a subscriber with an open window all along misses nothing
                         // (also one whose connection takes only k bytes per write call: every
                         // write makes progress, so nothing is ever "full")
-                        if c.slow[j].iter().all(|e| matches!(e.1, WinEv::Partial(_) | WinEv::Open)) && msgs != published {
-                            fail!(f, format!("C12/{}/healthy-subscriber-affected", who), "subscriber {} never stalled (events {:?}) but received {} of {} messages", j, c.slow[j], msgs.len(), published.len());
+                        if c.slow[j].iter().all(|e| matches!(e.1, WinEv::Partial(_) | WinEv::Open)) && msgs != matching {
+                            fail!(f, format!("C12/{}/healthy-subscriber-affected", who), "subscriber {} never stalled (events {:?}) but received {} of {} messages", j, c.slow[j], msgs.len(), matching.len());
                         }
                     }
                 }
@@ -498,7 +538,8 @@ pub fn gen_slow(s: &mut Src<'_>, budget_bytes: usize) -> SlowCase {
             evs
         })
         .collect();
-    SlowCase { xpub, with_healthy, slow, publishes }
+    let filtered = s.chance(1, 3);
+    SlowCase { xpub, with_healthy, slow, publishes, filtered }
 }
 
 pub fn run(ctx: &Ctx) -> (Report, PropertyMeta) {
@@ -543,12 +584,21 @@ pub fn run(ctx: &Ctx) -> (Report, PropertyMeta) {
                         with_healthy,
                         slow: vec![vec![(2, WinEv::Stall(budget)), (np - 2, WinEv::Open)]],
                         publishes: publishes.clone(),
+                        filtered: false,
+                    });
+                    cases.push(SlowCase {
+                        xpub,
+                        with_healthy,
+                        slow: vec![vec![(2, WinEv::Stall(budget)), (np - 2, WinEv::Open)]],
+                        publishes: publishes.clone(),
+                        filtered: true,
                     });
                     cases.push(SlowCase {
                         xpub,
                         with_healthy,
                         slow: vec![vec![(2, WinEv::Stall(budget))], vec![(3, WinEv::Break)]],
                         publishes,
+                        filtered: false,
                     });
                 }
             }
@@ -567,10 +617,11 @@ pub fn run(ctx: &Ctx) -> (Report, PropertyMeta) {
     health(&mut report, "stall>=HWM-then-resume", total, 200);
     health_abs(&mut report, "heap-measured-during-stall", 100);
     health_abs(&mut report, "broken-subscriber", 100);
+    health_abs(&mut report, "subscribers-filter-on-a-topic", 300);
 
     let meta = PropertyMeta {
         level: "fault_enumeration",
-        rule: "real PUB and XPUB sockets with raw subscribers whose write side follows a generated back-pressure pattern (accept k bytes then stall, k-byte partial writes, resume, never drain, BrokenPipe) while 20..400 tagged messages with sizes from {1, 1000, 65536, 131071, 131072, 131073, 200000} are published. Oracles: (1) every publish completes with no window action in between; (2) a subscriber that accepts every write receives every publish, in order; (3) a slow subscriber's wire is a well-formed ZMTP stream whose complete messages are an unmodified, order-preserving subsequence of the publishes (a trailing fragment only on a broken connection and then a prefix of a later publish); (4) of the bytes published while a subscriber was stalled at most HWM + one message reach it later, and live heap (counting allocator) grows by at most 2 x (HWM + largest message) + 64 KiB per stalled subscriber while all subscribers are stalled; (5) a broken subscriber does not make publish fail. Non-trivial = a subscriber stalls while >= HWM bytes are published and later resumes; distinct by case".into(),
+        rule: "real PUB and XPUB sockets with raw subscribers whose write side follows a generated back-pressure pattern (accept k bytes then stall, k-byte partial writes, resume, never drain, BrokenPipe) while 20..400 tagged messages with sizes from {1, 1000, 65536, 131071, 131072, 131073, 200000} are published. Oracles: (1) every publish completes with no window action in between; (2) a subscriber that accepts every write receives every publish, in order; (3) a slow subscriber's wire is a well-formed ZMTP stream whose complete messages are an unmodified, order-preserving subsequence of the MATCHING publishes (in a third of the cases everybody subscribes to 'tt' and half of the publishes have a first frame that is a proper prefix of it, empty or unrelated; a trailing fragment only on a broken connection and then a prefix of a later publish); (4) of the bytes published while a subscriber was stalled at most HWM + one message reach it later, and live heap (counting allocator) grows by at most 2 x (HWM + largest message) + 64 KiB per stalled subscriber while all subscribers are stalled; (5) a broken subscriber does not make publish fail. Non-trivial = a subscriber stalls while >= HWM bytes are published and later resumes; distinct by case".into(),
         assumptions: vec!["the high-water mark is asynchronous-codec's default send HWM (131072 bytes), which the library does not change".into()],
         exhaustive: false,
     };
